@@ -54,17 +54,21 @@ package core
 
 //@ func (*PreorderedLogClient).getRoot
 //@ props C20
+//@ pure
 //@ site GetLatestSignedLogRoot#1 as gr
 //@ site UnmarshalBinary#1 as um
 //@ requires c != nil && c.cli != nil && ctx != nil
 //@ ensures [backend-error-or-missing-root-is-an-error] gr.res1 != nil || gr.res0 == nil || after(gr, gr.res0.SignedLogRoot) == nil ==> result2 != nil
 //@ ensures [undecodable-root-is-an-error] um.called && um.res != nil ==> result2 != nil
+//@ ensures [a-tree-size-that-fits-62-bits] result2 == nil ==> result0 <= 4611686018427387904
 //@ ensures [size-and-hash-are-the-decoded-root] result2 == nil ==> um.called && um.res == nil && result0 == after(um, logRoot.TreeSize) && result1 == after(um, logRoot.RootHash)
 //@ at gr assert [root-of-this-tree] gr.in.LogId == c.treeID
 
 // The consistency gate: past a non-empty destination root only with a verified proof from the source.
 //@ func (*Controller).verifyConsistency
 //@ props C20
+//@ modifies nothing
+//@ frame-trusted asks the source log for a consistency proof and verifies it; writes only locals
 //@ arith int
 //@ site GetSTHConsistency#1 as gc
 //@ site proof.VerifyConsistency#1 as vc
@@ -119,6 +123,18 @@ package core
 //@ loop 1 step-assert [the-next-batch-is-taken-only-after-this-one-was-accepted] add.called && add.res == nil
 //@ at add assert [submits-exactly-the-batch-received] *add.b == rcv.res && add.c == c.plClient
 
+// A submitter goroutine of a pass: it runs the submitter loop on the pass's channel under the pass's
+// own context, and a submitter failure cancels that context (stopping the fetch and the other submitters).
+//@ func (*Controller).fetchTail$1
+//@ props C20
+//@ may panic
+//@ modifies nothing
+//@ frame-trusted writes what runSubmitter writes (the destination log) and cancels the pass's context
+//@ site runSubmitter#1 as rs
+//@ requires c != nil && c.plClient != nil && c.plClient.cli != nil && c.plClient.idFunc != nil && cctx != nil
+//@ ensures [every-submitter-runs-the-submitter-loop] rs.called
+//@ at rs assert [on-the-pass-channel-under-the-pass-own-context] rs.ctx == cctx && rs.batches == batches
+
 // The callback fetchTail hands to the fetcher: the batch goes to the submitters unchanged (or is
 // dropped only because the pass is being cancelled).
 //@ func (*Controller).fetchTail$2
@@ -138,7 +154,8 @@ package core
 //@ site verifyConsistency#1 as vc
 //@ site Run#1 as run
 //@ stable-field c.ctClient c.plClient c.ctClient.JSONClient
-//@ requires c != nil && c.plClient != nil && c.plClient.cli != nil && c.ctClient != nil && c.ctClient.httpClient != nil && ctx != nil
+//@ requires c != nil && c.plClient != nil && c.plClient.cli != nil && c.plClient.idFunc != nil && c.ctClient != nil && c.ctClient.httpClient != nil && ctx != nil
+//@ requires [options-from-a-validated-config: positive batch size (ValidateMigrationConfig); a non-negative end index is NOT validated there and is required here] c.opts.FetcherOptions.BatchSize >= 1 && c.opts.FetcherOptions.EndIndex >= 0
 //@ ensures [destination-root-error-stops-the-pass] gr.res2 != nil ==> result1 == gr.res2 && !run.called
 //@ ensures [source-sth-error-stops-the-pass] pr.called && pr.res1 != nil ==> result1 == pr.res1 && !run.called
 //@ ensures [nothing-new-nothing-fetched] pr.called && pr.res1 == nil && after(pr, pr.res0.TreeSize) <= begin ==> result0 == begin && result1 == nil && !run.called && !vc.called
